@@ -25,8 +25,11 @@ REGISTRY = {}
 
 
 class ContractDef:
-    def __init__(self, prop, name, fn, bounded=None, min_obligations=1, native=True, native_runs=None, tags=()):
+    def __init__(self, prop, name, fn, bounded=None, min_obligations=1, native=True, native_runs=None, tags=(),
+                 symbolic=True, replay_with=None):
         self.prop, self.name, self.fn = prop, name, fn
+        self.symbolic = symbolic
+        self.replay_with = replay_with
         self.bounded = bounded
         self.min_obligations = min_obligations
         self.native = native
@@ -39,6 +42,13 @@ def contract(prop, name, **kw):
         REGISTRY.setdefault(prop, []).append(ContractDef(prop, name, f, **kw))
         return f
     return deco
+
+
+def bounded(prop, name, **kw):
+    """a native-only harness: run-time contract evaluation over a bounded input family (never proof)"""
+    kw.setdefault("symbolic", False)
+    kw.setdefault("min_obligations", 0)
+    return contract(prop, name, **kw)
 
 
 class ModeConst:
@@ -72,6 +82,7 @@ class SymVC:
         self.getvals = []
         self.name_prefix = f"{cdef.prop}.{cdef.name}"
         self.unexpected_raise_ok = False
+        self.end_checks = []
 
     # ---- inputs ---------------------------------------------------------------------------------
     def int(self, name, lo=None, hi=None, hard_hi=False, sample=None):
@@ -184,6 +195,47 @@ class SymVC:
     def ghost(self, name, fn):
         """a user-supplied callable (forward model, posterior ...): arbitrary, represented by `fn`"""
         return GhostFn(name, fn)
+
+    def at_path_end(self, fn):
+        """register a check that is run at the end of every explored path (also paths cut at a loop head)"""
+        self.end_checks.append(fn)
+
+    def path_end_checks(self):
+        for fn in self.end_checks:
+            fn()
+
+    def divisions_defined(self, name="defined.no_division_by_zero"):
+        """every division executed on this path has a non-zero divisor"""
+        def check():
+            seen = set()
+            for ev in self.c.trace:
+                if ev[0] != "division":
+                    continue
+                zb = ev[1]
+                if z3.is_rational_value(zb) or z3.is_int_value(zb):
+                    if (zb.as_fraction() if z3.is_rational_value(zb) else zb.as_long()) != 0:
+                        continue
+                if zb.get_id() in seen:
+                    continue
+                seen.add(zb.get_id())
+                self.ensures(name, Sym(zb != 0))
+        self.at_path_end(check)
+
+    def modular(self, qualname, handler):
+        """calls of `qualname` are replaced by its contract: handler(interp, func, args, kwargs)"""
+        self.I.call_contracts[qualname] = handler
+
+    def loop(self, qualname, tag, spec):
+        self.I.loop_specs[(qualname, tag)] = spec
+
+    def fresh_int(self, name, lo=None):
+        v = self.c.fresh(name, "Int")
+        if lo is not None:
+            self.c.defs.append(v >= lo)
+        return Sym(v)
+
+    def fresh_real(self, name):
+        return Sym(self.c.fresh(name, "Real"))
 
     def deriv(self, value, dleaf):
         from .diff import derivative
